@@ -48,8 +48,10 @@ func c10Tok(n int) *oidc.TokenResponse {
 
 func c10Prop(c *sim.Case) {
 	kind := sim.PickStr(c, "store", "memory", "redis")
-	abs := time.Duration(c10Timeouts[sim.Pick(c, "abs", len(c10Timeouts))]) * time.Second
-	idle := time.Duration(c10Timeouts[sim.Pick(c, "idle", len(c10Timeouts))]) * time.Second
+	// mostly the small limits (histories of a dozen steps reach every region around them, including where the two
+	// limits cross); the large ones are there for units and arithmetic
+	abs := time.Duration(c10Timeouts[sim.Weighted(c, "abs", 4, 4, 4, 4, 4, 4, 1, 1)]) * time.Second
+	idle := time.Duration(c10Timeouts[sim.Weighted(c, "idle", 4, 4, 4, 4, 4, 4, 1, 1)]) * time.Second
 	clk := sim.NewVClock()
 	st := sim.NewStore(kind, clk, abs, idle)
 	ctx := context.Background()
@@ -224,7 +226,13 @@ func c10Prop(c *sim.Case) {
 					}
 				}
 			}
-			switch sim.Weighted(c, "adv.kind", 4, 2, 1) {
+			switch sim.Weighted(c, "adv.kind", 4, 2, 1, 2) {
+			case 3:
+				// to either side of the instant from which the absolute limit, not the idle one, is the nearer of the two
+				off := []time.Duration{-500, 500, 1200}[sim.Pick(c, "adv.cross", 3)] * time.Millisecond
+				if m.exists && abs > 0 && idle > 0 {
+					d = m.created.Add(abs-idle).Sub(now) + off
+				}
 			case 0:
 				off := []time.Duration{-1500, -500, 500, 1500}[sim.Pick(c, "adv.off", 4)] * time.Millisecond
 				d = next + off
@@ -257,7 +265,7 @@ func c10Prop(c *sim.Case) {
 func TestC10(t *testing.T) {
 	r := sim.NewRun(t, "C10")
 	defer r.Finish()
-	r.Rule = "store tier: (absolute, idle) in {0,1,2,3,5,60,900,28800}^2 x {memory, Redis on miniredis} on a virtual clock, 0-27 other sessions created just before the judged one, sweeps (RemoveAllExpired) and operations on other sessions at drawn points; histories of writes (tokens, login state), reads (either kind; each read is also a use) and clock advances drawn 1.5 s / 0.5 s before and after the next limit, at random sub-second and multi-second offsets. Oracle: interval model of creation time and last use with 1 s tolerance (must not be honoured beyond a limit; must be honoured more than 1 s inside both; otherwise either). System tier: the assembled service (server.ExtAuthZFilter.Check with the real session-store factory wiring and real clock). Non-trivial = the history observed the session both alive and expired and (if an absolute limit is set) used it between creation and that limit; distinct = distinct (store, timeouts, trace)."
+	r.Rule = "store tier: (absolute, idle) in {0,1,2,3,5,60,900,28800}^2 x {memory, Redis on miniredis} on a virtual clock, 0-27 other sessions created just before the judged one, sweeps (RemoveAllExpired) and operations on other sessions at drawn points; histories of writes (tokens, login state), reads (either kind; each read is also a use) and clock advances drawn 1.5 s / 0.5 s before and after the next limit, to either side of the instant at which the absolute limit becomes the nearer one, at random sub-second and multi-second offsets. Oracle: interval model of creation time and last use with 1 s tolerance (must not be honoured beyond a limit; must be honoured more than 1 s inside both; otherwise either). System tier: the assembled service (server.ExtAuthZFilter.Check with the real session-store factory wiring and real clock). Non-trivial = the history observed the session both alive and expired and (if an absolute limit is set) used it between creation and that limit; distinct = distinct (store, timeouts, trace)."
 	r.Assumptions = []string{"one second of timestamp granularity is tolerated on either side of a limit", "miniredis follows the virtual clock through SetTime + FastForward"}
 	parts := map[string]func(*sim.Case){"store": c10Prop, "system": c10System}
 	if r.Replay != "" {
@@ -265,7 +273,7 @@ func TestC10(t *testing.T) {
 		return
 	}
 	r.CheckKnown(parts)
-	r.Rapid("store", r.N(20000, 600000), c10Prop)
+	r.Rapid("store", r.N(60000, 900000), c10Prop)
 	if r.Shard == 0 {
 		r.Rapid("system", map[bool]int{false: 6, true: 24}[r.Thorough()], c10System)
 	}
